@@ -444,7 +444,7 @@ def _never(detail, kf):
 def run(tier, seed, replay=None):
     rep = C.Report("C15", tier, seed, "proof")
     proof_ok = C.proof_part(rep, "Driver/Properties_C15.v",
-                            ["Driver/Model.vo", "Driver/Corr.vo", "Driver/Proofs.vo"], ["Driver"])
+                            ["Driver/Model.vo", "Driver/Corr.vo", "Driver/Spec.vo", "Driver/SpecOrder.vo", "Driver/Proofs.vo", "Driver/ProofsLoops.vo", "Driver/ProofsOracle.vo", "Driver/ProofsSession.vo"], ["Driver"])
     workdir = tempfile.mkdtemp(prefix="verif_c15_")
     cwd = os.getcwd()
     try:
